@@ -8,7 +8,7 @@ HOOK_COMMITS = ["d85c6ee", "170bde9", "43ffa35", "8043914", "4c6f2d6", "8d2eb59"
 CHECKS = {
  "C20": ("E1-simnet-explorer", "model_checking",
    "three parts: (a) quiescence snapshots after every enumerated call-overlap and single-fault schedule on a real node, (b) explicit-state BFS over the real Server with small capacities against an exact-LRU reference plus a cache-rolling history on a real node, (c) exhaustive enumeration of lookup/put histories on a real node with the statistics counters recomputed from the cached lookups after every step",
-   "(a) every ordered pair of the 13 API calls at every placement of the second call inside the first call's lifetime and every single-fault schedule of every single call is followed by a quiet period, after which the node snapshot must hold no per-call state; (b) all request histories to depth 4 (quick) / 6 (thorough) against Servers with capacities 1..3 and asymmetric shapes, and 1007 lookups over 1003 targets rolling the 1000-entry lookup cache; (c) all 15^3 (quick) / 15^4 (thorough) histories over 5 operations x 3 targets plus a 3-hour refresh timeline, counters compared after every completed lookup. The stores also get one info hash announced to by 24 peers (replies are then samples of the store; the 27th announcer overflows the capacity of 26), and the histories include a target whose lookups nobody answers, looked up twice with one other step before, between or after.",
+   "(a) every ordered pair of the 13 API calls at every placement of the second call inside the first call's lifetime and every single-fault schedule of every single call is followed by a quiet period, after which the node snapshot must hold no per-call state; (b) all request histories to depth 4 (quick) / 6 (thorough) against Servers with capacities 1..3 and asymmetric shapes, and 1007 lookups over 1003 targets rolling the 1000-entry lookup cache; (c) all 15^3 (quick) / 15^4 (thorough) histories over 5 operations x 3 targets plus a 3-hour refresh timeline, counters compared after every completed lookup. The stores also get one info hash announced to by 24 peers (replies are then samples of the store; the 27th announcer overflows the capacity of 26), and the histories include a target whose lookups nobody answers, looked up twice with one other step before, between or after. Networks of one and two peers with lookups whose target is a peer's id (all 4^3 kind sequences); stores whose immutable and mutable capacities differ.",
    "Floating-point sums compared with a tolerance scaled by the largest sample seen; an early eviction of the LRU entry is accepted.", "DESIGN.md section 6, C20"),
   "C14": ("E1-simnet-explorer", "model_checking",
    "exhaustive enumeration of single (thorough: pairs of) timeline deviations over multi-hour virtual-time runs of real nodes on the simulated network; oracle from the datagram log at every maintenance boundary",
@@ -20,11 +20,11 @@ CHECKS = {
    "Honest nodes, latencies below the request timeout; the 50..300-node success-rate clause is statistical and not decided.", "DESIGN.md section 6, C01"),
   "C13": ("E1-simnet-explorer", "model_checking",
    "exhaustive enumeration of join orders, start timings, bootstrap-list shapes and IP plans over networks of real nodes on the simulated network",
-   "Networks of 1..3 (quick) / 1..4 (thorough) real server nodes plus fixed 8- and 20-node shapes: every permutation of id classes over join positions x 5 start timings x 4 bootstrap-list shapes x public/private plan; bootstrapped() results, table contents, strong connectivity of the knows-graph, 'every lookup asks every server' (from the datagram log) and the dead-list verdict are checked on every network. What Info and to_bootstrap() report is compared with each node's state right after the joins and at the end; networks of 1..10 (thorough ..30) nodes are also built by the library's own blocking Testnet::new inside the simulated world and judged the same way.",
+   "Networks of 1..3 (quick) / 1..4 (thorough) real server nodes plus fixed 8- and 20-node shapes: every permutation of id classes over join positions x 5 start timings x 4 bootstrap-list shapes x public/private plan; bootstrapped() results, table contents, strong connectivity of the knows-graph, 'every lookup asks every server' (from the datagram log) and the dead-list verdict are checked on every network. What Info and to_bootstrap() report is compared with each node's state right after the joins and at the end; networks of 1..10 (thorough ..30) nodes are also built by the library's own blocking Testnet::new inside the simulated world and judged the same way. Thorough: 50-, 100- and 300-node networks with the connectivity verdict.",
    "Loss-free network; sizes above 20 not explored.", "DESIGN.md section 6, C13"),
   "C18": ("E1-simnet-explorer", "model_checking",
    "exhaustive enumeration of request kinds, read-only flag assignments and NAT x vote x configuration timelines on real nodes over a simulated network with a virtual clock",
-   "Real client and server nodes on the simulated network: every request kind (valid and every single-field deviation) to a client; scripted requesters with every ro flag value against servers with/without a bootstrap list; every subset of responders / storers flagging ro on lookups and on put acknowledgements; adaptive, explicit-server and public_ip nodes over 35 virtual minutes for every NAT rule and vote pattern (thorough: plus every single lost datagram in the first 10 s). The mode switch, the self ping, the firewalled flag and table contents are read from snapshots and the datagram log. The public Info accessors are compared with that state, and every adaptive / public_ip timeline is run again with the application calling bootstrapped() at minutes 10 and 24.",
+   "Real client and server nodes on the simulated network: every request kind (valid and every single-field deviation) to a client; scripted requesters with every ro flag value against servers with/without a bootstrap list; every subset of responders / storers flagging ro on lookups and on put acknowledgements; adaptive, explicit-server and public_ip nodes over 35 virtual minutes for every NAT rule and vote pattern (thorough: plus every single lost datagram in the first 10 s). The mode switch, the self ping, the firewalled flag and table contents are read from snapshots and the datagram log. The public Info accessors are compared with that state, and every adaptive / public_ip timeline is run again with the application calling bootstrapped() at minutes 10 and 24. Five vote patterns (the lying minority below / above the true address / true IP with a higher port), a DHT node sharing the observed node's public IP that pings it, and a configured request filter that must still be consulted after the node became a server.",
    "Tie votes accept either outcome; four voting peers.", "DESIGN.md section 6, C18"),
   "C05": ("E3-enumeration", "exploration",
    "bounded-exhaustive grammar enumeration through the real decoder (catch_unwind) and delivery of the single-deviation neighbourhood to live real nodes on the simulated network, followed by liveness probes",
@@ -40,19 +40,19 @@ CHECKS = {
    "Latency 10 ms, late = 900 ms; three peers.", "DESIGN.md section 6, C06"),
   "C02": ("E1-simnet-explorer", "model_checking",
    "exhaustive enumeration of Byzantine answer assignments and arrival orders against a real reader node over a simulated network, independent re-verification of everything the API surfaces",
-   "A real node runs every lookup API over 3 scripted endpoints; every assignment of a forgery-menu answer (8-10 classes incl. type confusion, other key, other salt, replay from the other slot, bit flips) to every endpoint in every arrival order is executed, alone and with a second caller (or the node's own put) sharing the still-active lookup; each surfaced element is re-verified with sha1/ed25519 by the harness. Signed-peer lists of 16 records (forged last) are on the menu, the node's own put of every kind may be in flight, and the lookups are also made through the blocking Dht API.",
+   "A real node runs every lookup API over 3 scripted endpoints; every assignment of a forgery-menu answer (8-10 classes incl. type confusion, other key, other salt, replay from the other slot, bit flips) to every endpoint in every arrival order is executed, alone and with a second caller (or the node's own put) sharing the still-active lookup; each surfaced element is re-verified with sha1/ed25519 by the harness. Signed-peer lists of 16 records (forged last) are on the menu, the node's own put of every kind may be in flight, and the lookups are also made through the blocking Dht API. Beyond the cube menu: a non-UTF-8 value with a byte-swapped replay under the same signature, two genuine records of one key in one signed-peers answer.",
    "Forgery classes rather than all byte strings; oracle trusts sha1_smol and ed25519-dalek verification.", "DESIGN.md section 6, C02"),
   "C07": ("E1-simnet-explorer", "model_checking",
    "exhaustive enumeration of endpoint behaviours around the K=20 boundary against a real initiator over a simulated network; verdict computed from the lookup's own datagram trace",
-   "A real node runs each lookup kind over 3..26 scripted endpoints with BEP42-secure ids; every choice of up to 2 (quick) / 3 (thorough) varying endpoints at ranks 1,2,19,20,21,22 x 7 list behaviours x 3 initial-knowledge shapes is executed, plus get_immutable of a 1000-byte value whose holder's ~1.7 kB answer is the only source of the closest node, plus every single latency deviation (answers overtaking each other) on the base shapes; closure, the reported / stored-to set and the never-ask-again rule are decided from the trace alone.",
+   "A real node runs each lookup kind over 3..26 scripted endpoints with BEP42-secure ids; every choice of up to 2 (quick) / 3 (thorough) varying endpoints at ranks 1,2,19,20,21,22 x 7 list behaviours x 3 initial-knowledge shapes is executed, plus get_immutable of a 1000-byte value whose holder's ~1.7 kB answer is the only source of the closest node, plus every single latency deviation (answers overtaking each other) on the base shapes; closure, the reported / stored-to set and the never-ask-again rule are decided from the trace alone. Also 60 endpoints (thorough: 150, 300) and a second lookup of the same target within the life of its cached responders after some of them fell silent.",
    "Loss-free network; sizes above 26 are represented by the ranks relative to the 20-boundary.", "DESIGN.md section 6, C07"),
   "C08": ("E1-simnet-explorer", "model_checking",
    "exhaustive enumeration of storer behaviours and reply arrival orders against a real writer node over a simulated network, oracle computed from the network log",
-   "A real writer runs every put kind against 1-3 (quick) / 1-4 (thorough) scripted storing endpoints under every assignment of {no token, ack, 203, 205, 301, 302, 201, silence, late ack, ack flagged ro=1} and every arrival order, plus replica sets of 255/256/257/300 nodes through extra_nodes; the result is judged against which acknowledgements and 301/302 replies the log shows were delivered in time, and every write datagram is checked to go to a token issuer with its own token. A put in its store phase is also crossed with another lookup of the same target that ends with tokens, without tokens, with errors only or in silence; the main matrix is repeated through the blocking Dht API.",
+   "A real writer runs every put kind against 1-3 (quick) / 1-4 (thorough) scripted storing endpoints under every assignment of {no token, ack, 203, 205, 301, 302, 201, silence, late ack, ack flagged ro=1} and every arrival order, plus replica sets of 255/256/257/300 nodes through extra_nodes; the result is judged against which acknowledgements and 301/302 replies the log shows were delivered in time, and every write datagram is checked to go to a token issuer with its own token. A put in its store phase is also crossed with another lookup of the same target that ends with tokens, without tokens, with errors only or in silence; the main matrix is repeated through the blocking Dht API. Puts on a slow network: the request timeout has adapted (read from the snapshot), 1..24 storers acknowledge 40 ms inside it, with and without a warm-up put.",
    "Release arithmetic (no overflow checks); replies faster than 500 ms count as in time.", "DESIGN.md section 6, C08"),
   "C09": ("E1-simnet-explorer", "model_checking",
    "deviation-bounded exhaustive exploration of adversarial injections and reply faults on a real node over a simulated network, differential oracle against the unperturbed run",
-   "A real node (real actor thread, socket layer and codec) runs a lookup and a put over scripted endpoints; at every network event an adversary may inject every (kind x guessable transaction id x wrong source) message, and every genuine reply may be duplicated, lost, delayed past its timeout or both; all single deviations (quick), pairs of injections over the sharpest kinds (thorough) and all pairs of reply fates with a silent node keeping the lookup open (at-most-once oracle) are enumerated, as is every start position of the node's transaction-id counter around the 16-bit boundary and the 32-bit wrap-around (differential against the fresh node) and each execution's observable outcome (call results, routing tables, cached nodes, address votes, stored values) must equal the unperturbed one. On a node whose ids are above 65536 the addressed peer itself sends ids congruent to the outstanding one modulo 65536 (or its two low bytes) before the genuine reply; a request sent to an unspecified address is answered from another port.",
+   "A real node (real actor thread, socket layer and codec) runs a lookup and a put over scripted endpoints; at every network event an adversary may inject every (kind x guessable transaction id x wrong source) message, and every genuine reply may be duplicated, lost, delayed past its timeout or both; all single deviations (quick), pairs of injections over the sharpest kinds (thorough) and all pairs of reply fates with a silent node keeping the lookup open (at-most-once oracle) are enumerated, as is every start position of the node's transaction-id counter around the 16-bit boundary and the 32-bit wrap-around (differential against the fresh node) and each execution's observable outcome (call results, routing tables, cached nodes, address votes, stored values) must equal the unperturbed one. On a node whose ids are above 65536 the addressed peer itself sends ids congruent to the outstanding one modulo 65536 (or its two low bytes) before the genuine reply; a request sent to an unspecified address is answered from another port. A timed-out but still listed request is answered from a wrong address while a younger request keeps the lookup open; genuine replies are duplicated on a node whose ids straddle the 32-bit wrap.",
    "One operation scenario (get then put, 3 endpoints); forged messages from the right address are outside the oracle.", "DESIGN.md section 6, C09"),
   "C12": ("E2-explicit-state", "model_checking",
    "explicit-state BFS over operation sequences whose state is the real RoutingTable plus the virtual clock; invariants on every state, transition relation on every step",
@@ -60,11 +60,11 @@ CHECKS = {
    "Node ids/IPs come from a fixed pool; BEP42 security decided by the independent reference.", "DESIGN.md section 6, C12"),
   "C03": ("E2-explicit-state", "model_checking",
    "explicit-state BFS over request histories on clones of the real Server, reference model in lock-step",
-   "All request histories up to depth 6 (quick) / 8 (thorough) over five sub-alphabets (valid and invalid writes of every kind, token provenance classes, boundary sizes, timestamps around +-45 s, clock steps around the rotation period, request filter) are executed against the real Server through the real codec; every reply and the stored state are compared with a reference model after every transition. Further sub-alphabets: the same announcer announcing again (other port, implied port, newer timestamp), and one info hash with 24 announcers (replies are samples: 1..=20 distinct accepted ones).",
+   "All request histories up to depth 6 (quick) / 8 (thorough) over five sub-alphabets (valid and invalid writes of every kind, token provenance classes, boundary sizes, timestamps around +-45 s, clock steps around the rotation period, request filter) are executed against the real Server through the real codec; every reply and the stored state are compared with a reference model after every transition. Further sub-alphabets: the same announcer announcing again (other port, implied port, newer timestamp), and one info hash with 24 announcers (replies are samples: 1..=20 distinct accepted ones). Sizes that look small in 8 bits (salts 256/300/320, values 1256/1700/1900 bytes); priming steps are judged like every other step.",
    "States hold real Server clones; capacities 8/4/4 instead of defaults; a selection of the explored histories is replayed byte-for-byte through a full threaded node (E1) to bind the Server-level search to the running system.", "DESIGN.md section 6, C03"),
  "C04": ("E2-explicit-state", "model_checking",
    "explicit-state BFS to a fixpoint over put/get histories on clones of the real Server, BEP44 reference state machine in lock-step",
-   "The reachable state space of a Server under the put/get alphabet (seq 1..4, cas variants, two writers, keys, salted slot, capacities 1/2/8) is explored until no new state appears; every reply is compared with the BEP44 reference and the stored seq is checked for monotonicity on every transition.",
+   "The reachable state space of a Server under the put/get alphabet (seq 1..4, cas variants, two writers, keys, salted slot, capacities 1/2/8) is explored until no new state appears; every reply is compared with the BEP44 reference and the stored seq is checked for monotonicity on every transition. A present-but-empty salt shares its target with the unsalted slot: seq and cas apply across the two.",
    "Equal-seq-different-value is treated as unspecified; tokens are always fresh here.", "DESIGN.md section 6, C04"),
  "C15": ("E2-explicit-state", "model_checking",
    "explicit-state BFS over request/clock timelines on clones of the real Server, token-epoch reference in lock-step",
@@ -76,7 +76,7 @@ CHECKS = {
    "Trusts the harness' own bencode reader and tree builder (written from the BEPs, sharing no code with the crate).", "DESIGN.md section 6, C10"),
  "C11": ("E3-enumeration", "exploration",
    "bounded-exhaustive enumeration of insertion sequences through the public ClosestNodes/RoutingTable API, against a brute-force sort",
-   "Every subset of a 7-node universe that realises each relation the ordering and the same-IP rule inspect, in every insertion order, for several targets and table ids, plus 21-24 node sets under rotations/transpositions for the K cut and the parameter grid of take_until_secure; exhaustive inside those bounds. Tables with members not heard from for 16 minutes, and the node lists a Server puts in find_node / get_peers / get / get_signed_peers answers for every size relation of its main and signed-peers tables (at most 20, distinct, as full as the tables allow, closest first).",
+   "Every subset of a 7-node universe that realises each relation the ordering and the same-IP rule inspect, in every insertion order, for several targets and table ids, plus 21-24 node sets under rotations/transpositions for the K cut and the parameter grid of take_until_secure; exhaustive inside those bounds. Tables with members not heard from for 16 minutes, and the node lists a Server puts in find_node / get_peers / get / get_signed_peers answers for every size relation of its main and signed-peers tables (at most 20, distinct, as full as the tables allow, closest first). For every enumerated table the storage-node selection (closest_secure) must be a prefix of the secure-first order.",
    "Security of ids is decided by the harness' independent BEP42/CRC32C reference.", "DESIGN.md section 6, C11"),
   "C16": ("E3-enumeration", "exploration",
    "bounded-exhaustive enumeration of response streams fed through the real handle's channel, and of replica version assignments x arrival orders on a real node over the simulated network, against a max-fold reference",
